@@ -69,7 +69,7 @@ def run(ctx):
         asan_dir = _build.build("asan")
     except _build.BuildError as e:
         raise Machinery(str(e))
-    res = ctx.tlc("KernelCallsDump", "MC_KernelCalls%s.cfg" % ("" if ctx.tier == "quick" else "_thorough"), workers=8, timeout=1800, heap="6g")
+    res = ctx.tlc("KernelCallsDump", "MC_KernelCalls%s.cfg" % ("" if ctx.tier == "quick" else "_thorough"), timeout=1800, heap="6g")
     if res.violated:
         raise Machinery("KernelCalls.tla: the ghost memory model of the repaired kernels violates %s" % res.violated)
     cat = res.printed()
